@@ -344,3 +344,28 @@ Proof. vm_compute. reflexivity. Qed.
 Lemma tsig_from_wire_inv w : ParserSafe.bytes_ok w -> forall (endp pos : nat) t,
   tsig_from_wire w endp pos = Ok t -> tsig_inv t.
 Proof. intros Hw endp pos. exact (proj2 (tsig_from_wire_ok w Hw endp pos)). Qed.
+
+(* the OPT option loop of C14's reader runs under wrap_formerror, which would hide its fuel marker;
+   it is never produced: every iteration consumes the four-octet option header *)
+Lemma opt_options_no_internal w : ParserSafe.bytes_ok w -> forall fuel endp pos e,
+  (endp - pos < fuel)%nat -> opt_options w endp pos fuel <> Internal e.
+Proof.
+  intros Hw. induction fuel as [|f IH]; intros endp pos e Hf.
+  - cbn. destruct (Nat.leb endp pos) eqn:E; [discriminate|]. apply Nat.leb_gt in E. lia.
+  - cbn [opt_options]. destruct (Nat.leb endp pos) eqn:E; [discriminate|]. apply Nat.leb_gt in E.
+    pose proof (fe_get_uint w endp pos 2) as F1.
+    destruct (get_uint w endp pos 2) as [[t p1]|x|x] eqn:G1; cbn [bind fst snd]; [|discriminate|contradiction].
+    pose proof (fe_get_uint w endp p1 2) as F2.
+    destruct (get_uint w endp p1 2) as [[l p2]|x|x] eqn:G2; cbn [bind fst snd]; [|discriminate|contradiction].
+    cbv zeta. destruct (Nat.ltb _ _); [discriminate|].
+    apply IH.
+    assert (P1 : p1 = (pos + 2)%nat).
+    { unfold get_uint, get_bytes in G1. destruct (Nat.ltb _ _) in G1; [discriminate|]. cbn in G1. inversion G1. reflexivity. }
+    assert (P2 : p2 = (p1 + 2)%nat).
+    { unfold get_uint, get_bytes in G2. destruct (Nat.ltb _ _) in G2; [discriminate|]. cbn in G2. inversion G2. reflexivity. }
+    lia.
+Qed.
+
+Theorem opt_options_terminates w : ParserSafe.bytes_ok w -> forall (rdata_start rdlen : nat) e,
+  opt_options w (rdata_start + rdlen) rdata_start (S rdlen) <> Internal e.
+Proof. intros Hw rs rl e. apply opt_options_no_internal; [exact Hw|lia]. Qed.
